@@ -259,6 +259,55 @@ def gen_call(r, case):
     case["args"], case["kwargs"] = args, kwargs
 
 
+def enum_cases(maxn=3):
+    """small-scope exhaustive: every signature of <= maxn parameters over {positional-or-keyword, keyword-only} x
+    {un-annotated, Any, int} x {required, defaulted, dependency}, every split of the call CPython accepts
+    (positional prefix / keyword / not sent), parameter i carrying the convertible value str(5+i); both settings of
+    validate_params alternate with the formatter/serializer combination"""
+    import itertools
+    opts = [(k, a, d) for k in ("pos", "kw") for a in (None, "Any", "int") for d in ("req", "dflt", "dep")]
+    names = ["a", "b", "c", "d"]
+    combos = [("proxy", "json"), ("json", "json"), ("proxy", "pickle")]
+    out, n = [], 0
+    for ln in range(1, maxn + 1):
+        for sig in itertools.product(opts, repeat=ln):
+            kinds = [o[0] for o in sig]
+            if any(kinds[i] == "kw" and kinds[i + 1] == "pos" for i in range(ln - 1)):
+                continue
+            seen_d, ok = False, True
+            for k, a, d in sig:
+                if k == "pos":
+                    if d == "req" and seen_d:
+                        ok = False
+                    seen_d = seen_d or d != "req"
+            if not ok:
+                continue
+            params = [dict(name=names[i], kind=k, ann=a, default=(d == "dflt"), dep=("default" if d == "dep" else None))
+                      for i, (k, a, d) in enumerate(sig)]
+            # per parameter: P = positional, K = keyword, U = not sent
+            modes = []
+            for i, (k, a, d) in enumerate(sig):
+                m = ["K"]
+                if k == "pos" and d != "dep":
+                    m.append("P")
+                if d != "req":
+                    m.append("U")
+                modes.append(m)
+            for choice in itertools.product(*modes):
+                npos = 0
+                while npos < ln and choice[npos] == "P":
+                    npos += 1
+                if "P" in choice[npos:]:
+                    continue
+                n += 1
+                fmt, ser = combos[n % 3]
+                out.append(dict(params=params, ret=None, validate=(n % 4 != 0), fmt=fmt, ser=ser,
+                                args=[J(str(5 + i)) for i in range(npos)],
+                                kwargs=[[names[i], J(str(5 + i))] for i in range(npos, ln) if choice[i] == "K"],
+                                **{"async": n % 2 == 0}))
+    return out
+
+
 def in_scope(case):
     return all(p["kind"] in ("pos", "kw") for p in case["params"])
 
@@ -580,8 +629,14 @@ def run(ctx):
     explore(ctx, rep, [c for _, c in corpus if not c.get("observation")], "corpus")
     explore(ctx, rep, [c for _, c in corpus if c.get("observation")], "observations", observe_only=True)
     r = ctx.sub_rng("gen")
-    cases = [gen_case(r) for _ in range(ctx.n(2500, 60000))]
+    cases = [gen_case(r) for _ in range(ctx.n(3000, 60000))]
     broken = explore(ctx, rep, cases, "main")
+    nmax = ctx.n(2, 3)
+    ex = enum_cases(nmax)
+    rep.extra["small_scope_exhaustive"] = ("%d cases: every signature of <= %d parameters over {positional-or-keyword, keyword-only} x "
+                                           "{un-annotated, Any, int} x {required, defaulted, dependency} x every accepted "
+                                           "positional/keyword/unsent split" % (len(ex), nmax))
+    broken = explore(ctx, rep, ex, "small_scope") or broken
     if (broken or any(not o["ok"] for o in rep.obligations)) and not rep.failures:
         r2 = ctx.sub_rng("search")
         explore(ctx, rep, [gen_case(r2) for _ in range(ctx.n(20000, 100000))], "search")
